@@ -1358,7 +1358,9 @@ class Run(object):
                 if g1 != 0 or x1['ok'] is not False:
                     return bad('entry %d: a zero grade did not stay zero' % k)
                 continue
-            if abs(g1 - g0 * mult) > 6e-5 * max(g0, 1e-9) + 1e-12:
+            # (absolute 6e-5: the property does not fix rounding; rounding the credit or the product
+            # to four decimals is within it)
+            if abs(g1 - g0 * mult) > 6e-5:
                 return bad('entry %d: grade %r is not %r x %r' % (k, g1, g0, mult))
             if abs(mult - 1) > 5e-5:
                 reduced = True
